@@ -6,8 +6,8 @@ CONSTANTS
   Record = FALSE
   Mode = "fixed"
   Lag = FALSE
-  Sequential = FALSE
+  Sequential = TRUE
   Sample = 0
 INVARIANTS IdsIncrease IdsUnique ListExact
-PROPERTIES CreateOnlyIfAbsent
+PROPERTIES CreateOnlyIfAbsent QuietCreateStepAll
 CHECK_DEADLOCK FALSE
